@@ -672,6 +672,9 @@ func c10KFStep(p []c10Decl, d *c10Decl) []string {
 	if c10LowerClash(all) {
 		kf = append(kf, "C10-dotted-capital-i-merged-by-graph")
 	}
+	if c10ZombieRisk(all) {
+		kf = append(kf, "C10-null-container-resurrected")
+	}
 	switch {
 	case d.Kind == c10Obj && d.Prim == c10PNull:
 		if K, ok := c10Abs(nil, d.R); ok && c10UnderscoreInside(p, K) {
